@@ -430,8 +430,18 @@ func runUbl(t *Toks) string {
 			return confidential.UnblindOutputWithNonce(out, c.key)
 		})
 	}
-	s := fmt.Sprintf("blind=ok ac=%s vc=%s nonce=%s proof=%s verify=%s res=%s",
-		hx(b.ac), hx(b.vc), hx(b.nonce[:]), hx(b.proof), b2s(verify), cls)
+	// zkp_generator.go LastValueRangeProof: same call with Exp 0 / MinBits 52 and slices copied into arrays
+	lv := "err"
+	if p, err := confidential.NewZKPGeneratorFromBlindingKeys(nil, nil).LastValueRangeProof(
+		c.value, append([]byte{}, c.asset...), append([]byte{}, c.abf...), b.vc, c.vbf, c.script, b.nonce[:]); err == nil {
+		if bytes.Equal(p, b.proof) {
+			lv = "same"
+		} else {
+			lv = hx(p)
+		}
+	}
+	s := fmt.Sprintf("blind=ok ac=%s vc=%s nonce=%s proof=%s verify=%s lv=%s res=%s",
+		hx(b.ac), hx(b.vc), hx(b.nonce[:]), hx(b.proof), b2s(verify), lv, cls)
 	if cls == "ok" {
 		rc := "na"
 		if out.IsConfidential() {
@@ -497,10 +507,14 @@ func ubGenScript(r *Rng) []byte {
 	case 0, 1:
 		return nil
 	case 2, 3:
+		if r.Chance(25) {
+			return []byte{0x6a} // the shortest OP_RETURN script
+		}
 		return append([]byte{0x6a}, r.Bytes(r.Intn(40))...)
 	case 4:
-		if r.Chance(15) {
-			return append([]byte{0x00}, r.Bytes(10000)...) // 10001 bytes: unspendable by size
+		if r.Chance(20) {
+			// both sides of maxScriptSize: 10000 bytes is spendable, 10001 is not
+			return append([]byte{0x00}, r.Bytes(9999+r.Intn(2))...)
 		}
 		return append([]byte{0x51}, r.Bytes(r.Intn(3))...)
 	case 5:
@@ -596,6 +610,9 @@ func genUblCase(r *Rng) (*ublCase, *ubOracle) {
 	}
 	if gen != nil && commit != nil && nonce != nil {
 		proof = ubExpectedSign(o, c.value, c.asset, c.abf, c.vbf, nonce, c.script, c.exp, c.mb, gen, commit)
+	}
+	if gen != nil && commit != nil && nonce != nil && (c.exp != 0 || c.mb != 52) {
+		ubExpectedSign(o, c.value, c.asset, c.abf, c.vbf, nonce, c.script, 0, 52, gen, commit) // LastValueRangeProof
 	}
 	if proof == nil {
 		return c, o
